@@ -222,6 +222,62 @@ def mut_helper_conditionally_rebound(src):
     return replace_once(src, 'logger_detectors = logging.getLogger("Detectors")\n', 'logger_detectors = logging.getLogger("Detectors")\nif logger_detectors is not None:\n    next_blocks_global = lambda function, block: block.next\n')
 
 
+# ---- twin audit (same-typed names written for each other, swapped argument order / tuple components)
+def mut_retsub_callsub(src):
+    """(t1) the return branch tests bb.is_callsub_block (twin attributes)"""
+    return replace_once(src, RETSUB_IF, "        if bb.is_callsub_block:\n")
+
+
+def mut_report_executed(src):
+    """(t2) the reported path is the list of executed blocks of the current routine (a list of the same type)"""
+    return replace_once(src, "                paths_without_check.append(current_path)\n", "                paths_without_check.append(current_subroutine_executed[-1])\n")
+
+
+def mut_record_path(src):
+    """(t3) the executed list of the current routine becomes the whole path (a list of the same type)"""
+    return replace_once(src, "            current_subroutine_executed[-1] + [bb]\n", "            current_path\n")
+
+
+def mut_successors_prev(src):
+    """(t4) the DFS follows prev_blocks_global (forward / backward twin)"""
+    src = replace_once(src, "from tealer.utils.analyses import next_blocks_global, leaf_block_global\n", "from tealer.utils.analyses import next_blocks_global, prev_blocks_global, leaf_block_global\n")
+    return replace_once(src, "            for next_bb in next_blocks_global(function, bb):\n", "            for next_bb in prev_blocks_global(function, bb):\n")
+
+
+def mut_validated_abs_txn(src):
+    """(t5) validated_in_block: with an absolute index the gtxn test asks the txn context again (twin contexts)"""
+    return replace_once(
+        src,
+        "        if checks_field(function.transaction_context(block).gtxn_context(absolute_index)):\n",
+        "        if checks_field(function.transaction_context(block)):\n",
+    )
+
+
+def mut_frame_pair_swapped(src):
+    """(a1) (_, callsub_block) = current_call_stack[-1]"""
+    return replace_once(src, "            (callsub_block, _) = current_call_stack[-1]\n", "            (_, callsub_block) = current_call_stack[-1]\n")
+
+
+def mut_path_prepend(src):
+    """(a2) current_path = [bb] + current_path"""
+    return replace_once(src, APPEND_PATH, "        current_path = [bb] + current_path\n\n")
+
+
+def mut_frame_pushed_swapped(src):
+    """(a3) the pushed frame is (called_subroutine, bb)"""
+    return replace_once(src, "            current_call_stack = current_call_stack + [(bb, called_subroutine)]\n", "            current_call_stack = current_call_stack + [(called_subroutine, bb)]\n")
+
+
+def mut_stack_prepend(src):
+    """(a4) the new frame is pushed at the bottom of the call stack"""
+    return replace_once(src, "            current_call_stack = current_call_stack + [(bb, called_subroutine)]\n", "            current_call_stack = [(bb, called_subroutine)] + current_call_stack\n")
+
+
+def mut_frame_index(src):
+    """(a5) the recursion check reads frame[0]"""
+    return replace_once(src, "[frame[1] for frame in current_call_stack]", "[frame[0] for frame in current_call_stack]")
+
+
 MUTATIONS = [
     ("(i) record-as-executed after the frame push", UTILS, mut_record_after_push),
     ("(ii) loop cut tests `bb in current_path`", UTILS, mut_loop_cut_path),
@@ -249,6 +305,16 @@ MUTATIONS = [
     ("(s10) next_blocks_global changed (fingerprint)", AN, mut_next_helper),
     ("(s11) next_blocks_global re-bound under an if", UTILS, mut_helper_conditionally_rebound),
     ("(e1) EQUIVALENT: path extended before the cuts", UTILS, mut_path_first),
+    ("(t1) TWIN return branch tests is_callsub_block", UTILS, mut_retsub_callsub),
+    ("(t2) TWIN reported path = executed list", UTILS, mut_report_executed),
+    ("(t3) TWIN executed list = whole path", UTILS, mut_record_path),
+    ("(t4) TWIN DFS follows prev_blocks_global", UTILS, mut_successors_prev),
+    ("(t5) TWIN validated: txn context for gtxn context", UTILS, mut_validated_abs_txn),
+    ("(a1) PAIR (_, callsub_block) = frame", UTILS, mut_frame_pair_swapped),
+    ("(a2) ARGS current_path = [bb] + current_path", UTILS, mut_path_prepend),
+    ("(a3) PAIR pushed frame (subroutine, bb)", UTILS, mut_frame_pushed_swapped),
+    ("(a4) ARGS frame pushed at the bottom", UTILS, mut_stack_prepend),
+    ("(a5) PAIR recursion check reads frame[0]", UTILS, mut_frame_index),
 ]
 EQUIVALENT = {"(e1) EQUIVALENT: path extended before the cuts"}  # semantically neutral: Gallina differs, lemmas must hold
 REQUIRED = 5  # the first five rows are the mutations required by the task
